@@ -40,6 +40,19 @@ EDITS = [
     ('H9-to-i64-via-try-from', 'crates/toml_edit/src/ser/value.rs',
      [(r'(?s)let v: i64 = v\s*\.try_into\(\)\s*\.map_err\(\|_err\| Error::OutOfRange\(Some\("u64"\)\)\)\?;',
        'let v: i64 = i64::try_from(v).map_err(|_err| Error::OutOfRange(Some("u64")))?;', 1)], ['C11']),
+    ('H10-rename-local-render', 'crates/toml_edit/src/error.rs',
+     [(r'\bgutter\b', 'gutter_width', 0)], ['C15']),
+    ('H11-negated-branch', 'crates/toml_edit/src/parser/strings.rs',
+     [(r'(?s)if t\.contains\("\\r\\n"\) \{\s*Cow::Owned\(t\.replace\("\\r\\n", "\\n"\)\)\s*\} else \{\s*Cow::Borrowed\(t\)\s*\}',
+       'if !t.contains("\\r\\n") {\n                    Cow::Borrowed(t)\n                } else {\n                    Cow::Owned(t.replace("\\r\\n", "\\n"))\n                }', 1)], ['C02']),
+    ('H12-field-order', 'crates/toml_edit/src/parser/datetime.rs',
+     [(r'(?s)Some\(\(_, time, offset\)\) => Datetime \{\s*date: Some\(date\),\s*time: Some\(time\),\s*offset,\s*\}',
+       'Some((_, time, offset)) => Datetime {\n                            offset,\n                            time: Some(time),\n                            date: Some(date),\n                        }', 1)], ['C12']),
+    ('H13-guard-order', 'crates/toml_edit/src/de/table.rs',
+     [(r'(?s)if e\.span\(\)\.is_none\(\) \{\s*e\.set_span\(span\);\s*\}\s*e\.add_key\(k\.get\(\)\.to_owned\(\)\);',
+       'e.add_key(k.get().to_owned());\n                        if e.span().is_none() {\n                            e.set_span(span);\n                        }', 1)], ['C15']),
+    ('H14-match-arm-order', 'crates/toml_edit/src/parser/strings.rs',
+     [(r"(?s)(        b'b' => empty\.value\('\\u\{8\}'\),\n)(        b'f' => empty\.value\('\\u\{c\}'\),\n)", r'\2\1', 1)], ['C02']),
 ]
 
 
